@@ -47,10 +47,19 @@ func NewLWWRegister() *LWWRegister {
 
 // Set updates the register value with the given timestamp and node ID.
 // Returns a new LWWRegister with the updated state.
+//
+// A write whose (timestamp, nodeID) stamp loses against the stored one under
+// Merge's order is ignored: every peer that merges it keeps the stored write,
+// so exposing it locally would make this replica diverge from all the others
+// (for example after it merged a write from a node whose clock is ahead).
 func (r *LWWRegister) Set(value any, timestamp time.Time, nodeID string) *LWWRegister {
+	ts := timestamp.UnixNano()
+	if ts < r.timestamp || (ts == r.timestamp && nodeID < r.nodeID) {
+		return r.Clone().(*LWWRegister)
+	}
 	return &LWWRegister{
 		value:     value,
-		timestamp: timestamp.UnixNano(),
+		timestamp: ts,
 		nodeID:    nodeID,
 		dirty:     true,
 	}
